@@ -123,7 +123,10 @@ impl<'r> G<'r> {
     }
 
     fn index_for(&mut self, dim: usize) -> Expr {
-        // mostly in range
+        // mostly in range; now and then just beyond the end of this axis (BAD SUBSCRIPT on any axis)
+        if self.rng.chance(1, 40) {
+            return Expr::Num((dim as u64 + 1 + self.rng.below(3)).to_string());
+        }
         match self.rng.below(10) {
             0..=5 => Expr::Num(self.rng.below(dim as u64 + 1).to_string()),
             6..=7 if !self.active_loops.is_empty() => {
@@ -294,6 +297,16 @@ impl<'r> G<'r> {
     fn mistyped_stmt(&mut self) -> Stmt {
         self.feat("typed-mistake");
         let t = |n: &str| LValue::scalar(n);
+        if !self.funs.is_empty() && self.rng.chance(1, 4) {
+            // a call with too few / too many arguments, each of the right kind
+            let fi = self.rng.usize(self.funs.len());
+            let name = self.funs[fi].name.to_string();
+            let params: Vec<bool> = self.funs[fi].params.iter().map(|p| p.ends_with('$')).collect();
+            let n = if self.rng.coin() && params.len() > 1 { params.len() - 1 } else { params.len() + 1 };
+            let args: Vec<Expr> = (0..n).map(|k| if params.get(k).copied().unwrap_or(false) { strlit("s") } else { num(1) }).collect();
+            self.feat("typed-mistake-arity");
+            return Stmt::Print { items: vec![PrintItem::Expr(Expr::Call(name, args))], question_mark: false };
+        }
         match self.rng.below(12) {
             0 => Stmt::Let { target: t("X"), expr: strlit("s"), keyword: false },
             1 => Stmt::Let { target: t("A$"), expr: num(1), keyword: false },
@@ -357,8 +370,20 @@ impl<'r> G<'r> {
             0..=2 => (LValue::scalar(self.rng.s(NUM_VARS)), true),
             3..=4 => (LValue::scalar(self.rng.s(STR_VARS)), false),
             _ => {
-                let Expr::Cell(name, idx) = self.num_cell() else { unreachable!() };
-                (LValue { name, index: Some(idx) }, true)
+                if self.opts.input_boost && self.rng.chance(1, 3) {
+                    // a subscript with an effect (advances RND) or in error: it must be evaluated exactly once,
+                    // when the reply is stored, not when the request is issued
+                    self.feat("INPUT-subscript-with-effect");
+                    let idx = match self.rng.below(3) {
+                        0 if self.opts.rnd => Expr::Int(Box::new(bin(Bin::Mul, Expr::Rnd(Box::new(num(1))), num(3)))),
+                        1 => bin(Bin::Sub, num(0), num(1)),
+                        _ => bin(Bin::Add, var("UQ"), num(1)),
+                    };
+                    (LValue { name: "E".into(), index: Some(vec![idx]) }, true)
+                } else {
+                    let Expr::Cell(name, idx) = self.num_cell() else { unreachable!() };
+                    (LValue { name, index: Some(idx) }, true)
+                }
             }
         };
         // replies for one execution of this statement (loops re-use the script cyclically)
@@ -493,6 +518,9 @@ impl<'r> G<'r> {
         v.push(Stmt::Data(items));
         if self.rng.chance(1, 4) {
             v.push(self.print_stmt());
+        } else if self.opts.type_mistake_permille > 0 && self.rng.chance(1, 6) {
+            let m = self.mistyped_stmt();
+            v.push(m);
         }
         self.emit(v);
     }
@@ -628,6 +656,16 @@ impl<'r> G<'r> {
         if self.rng.chance(1, 4) {
             // single-line loop
             self.feat("FOR-single-line");
+            if self.rng.chance(1, 3) {
+                // delay loop: no body at all
+                self.feat("FOR-empty-body");
+                let mut line = vec![head, Stmt::Next(v.to_string())];
+                if self.rng.coin() {
+                    line.push(self.simple_stmt());
+                }
+                self.emit(line);
+                return;
+            }
             self.active_loops.push(v);
             let body = self.simple_stmt();
             self.active_loops.pop();
@@ -781,7 +819,17 @@ impl<'r> G<'r> {
                      Stmt::Read((0..self.data_items).map(|_| LValue::scalar("X")).collect())]
             }),
             12 => ("wrong-arity", vec![self.print_of(Expr::Cell("E".into(), vec![num(1), num(1)])), self.print_of(Expr::Cell("E".into(), vec![num(1)]))]),
-            13 => ("array-too-large", vec![Stmt::Dim("H".into(), vec![num(100), num(100)])]),
+            13 => {
+                if self.rng.coin() {
+                    ("array-too-large", vec![Stmt::Dim("H".into(), vec![num(100), num(100)])])
+                } else {
+                    // the first touch of an array is a rejected (mistyped) store; a later DIM must still succeed
+                    let (name, v) = if self.rng.coin() { ("H8", strlit("X")) } else { ("H8$", num(5)) };
+                    ("mistyped-first-touch", vec![
+                        Stmt::Let { target: LValue { name: name.into(), index: Some(vec![num(1)]) }, expr: v, keyword: false },
+                    ])
+                }
+            }
             _ => ("four-dim-implicit", vec![self.print_of(Expr::Cell("F".into(), vec![num(1), num(1), num(1), num(1)]))]),
         };
         self.out.injected_failure = Some(name);
